@@ -15,6 +15,16 @@ fn tls_req(version: http::Version, uri: &str, host: Option<&str>, sni: Option<&s
     req
 }
 
+/// every version constant the `http` crate has: the middleware must decide the same way for all of them (only HTTP/2
+/// reads the host from somewhere else); a version-dependent shortcut in front of `handle` shows up here
+const ALL_VERSIONS: [http::Version; 5] = [
+    http::Version::HTTP_09,
+    http::Version::HTTP_10,
+    http::Version::HTTP_11,
+    http::Version::HTTP_2,
+    http::Version::HTTP_3,
+];
+
 fn flag(req: &Request<()>) -> Option<bool> {
     req.extensions().get::<TlsConnectionInfo>().map(|t| t.validated_server_name)
 }
@@ -129,7 +139,7 @@ fn sni_decision_sweep() {
     ];
     let hosts: [Option<&str>; 5] = [None, Some("example.com"), Some("Example.COM:443"), Some("evil.example"), Some("example.com.evil.example")];
     let tls: [Option<Option<&str>>; 3] = [None, Some(None), Some(Some(sni_name))];
-    for v in [http::Version::HTTP_10, http::Version::HTTP_11, http::Version::HTTP_2] {
+    for v in ALL_VERSIONS {
         for (uri, auth_host) in uris {
             for host in hosts {
                 for t in tls {
@@ -186,9 +196,10 @@ async fn tls_info_for_concurrent_requests() {
     }
 }
 
-/// A.sni.service [C20] (bounded stand-in for `ValidateSNIService::call`, class A): the decision sweep driven through
-/// the public middleware, with ONE service instance (and a clone of it) serving all requests in two different orders -
-/// the verdict on a request must not depend on what the service saw before.
+/// A.sni.service [C20] (bounded stand-in for `ValidateSNIService::call`): the decision sweep driven through
+/// the public middleware - all five `http::Version` constants x 3 URIs x 4 Host headers x 3 TLS states = 180 requests -
+/// with ONE service instance (and a clone of it) serving all requests in two different orders: the verdict on a request
+/// must not depend on what the service saw before, nor on a version older / newer than the ones in common use.
 #[tokio::test]
 async fn standin_sni_service_sweep() {
     use tower::{Layer as _, Service as _, ServiceExt as _};
@@ -207,7 +218,7 @@ async fn standin_sni_service_sweep() {
     }
     let sni_name = "example.com";
     let mut cases = vec![];
-    for v in [http::Version::HTTP_11, http::Version::HTTP_2] {
+    for v in ALL_VERSIONS {
         for (uri, auth_host) in [("/path", None), ("https://example.com/path", Some("example.com")), ("https://evil.example/path", Some("evil.example"))] {
             for host in [None, Some("example.com"), Some("EXAMPLE.com:8443"), Some("evil.example")] {
                 for t in [None, Some(None), Some(Some(sni_name))] {
@@ -245,4 +256,179 @@ async fn standin_sni_service_sweep() {
             }
         }
     }
+}
+
+/// sni.call.rejects / sni.call.forwards / sni.call.always_handles / sni.ready_is_inner [C20] (`ValidateSNIService::call`
+/// and `poll_ready`): for every version constant and every request of the sweep, the middleware does what `handle` says
+/// about that very request and nothing else -
+///   * `handle` reports an error: the inner service is NOT called and the returned future is ready with exactly that error;
+///   * otherwise: the inner service is called exactly once, with the request AS LEFT BY `handle` (marked validated
+///     exactly when `handle` marks it; version, URI, headers untouched);
+///   * there is no request that reaches the inner service without `handle` having run on it: a request `handle` rejects is
+///     never seen by the inner service, whatever its version;
+///   * `poll_ready` asks the inner service exactly once and hands its answer on (an inner error arrives as `Inner`).
+#[tokio::test]
+async fn sni_call_is_handle_then_forward() {
+    use std::sync::{Arc, Mutex};
+    use tower::{Layer as _, Service as _};
+    type Seen = (http::Version, String, Option<String>, Option<bool>);
+    #[derive(Clone, Default)]
+    struct Recorder { calls: Arc<Mutex<Vec<Seen>>>, ready: Arc<Mutex<(usize, bool)>> }
+    impl tower::Service<Request<()>> for Recorder {
+        type Response = http::Response<()>;
+        type Error = std::io::Error;
+        type Future = std::future::Ready<Result<Self::Response, Self::Error>>;
+        fn poll_ready(&mut self, _: &mut std::task::Context<'_>) -> std::task::Poll<Result<(), Self::Error>> {
+            let mut r = self.ready.lock().unwrap();
+            r.0 += 1;
+            if r.1 { std::task::Poll::Ready(Err(std::io::Error::other("inner not ready"))) } else { std::task::Poll::Ready(Ok(())) }
+        }
+        fn call(&mut self, req: Request<()>) -> Self::Future {
+            self.calls.lock().unwrap().push((
+                req.version(),
+                req.uri().to_string(),
+                req.headers().get(header::HOST).map(|h| h.to_str().unwrap().to_string()),
+                req.extensions().get::<TlsConnectionInfo>().map(|t| t.validated_server_name),
+            ));
+            std::future::ready(Ok(http::Response::new(())))
+        }
+    }
+    let build = |v: http::Version, uri: &str, host: Option<&str>, t: Option<Option<&str>>| {
+        let mut req = Request::builder().version(v).uri(uri).body(()).unwrap();
+        if let Some(h) = host { req.headers_mut().insert(header::HOST, h.parse().unwrap()); }
+        if let Some(s) = t {
+            req.extensions_mut().insert(TlsConnectionInfo { server_name: s.map(Into::into), ..TlsConnectionInfo::default() });
+        }
+        req
+    };
+    let rec = Recorder::default();
+    let mut svc = ValidateSNI.layer(rec.clone());
+    let mut wrong = Vec::new();
+    let mut n = 0usize;
+    for v in ALL_VERSIONS {
+        for uri in ["/path", "https://example.com/path", "https://evil.example/path"] {
+            for host in [None, Some("example.com"), Some("EXAMPLE.com:8443"), Some("evil.example")] {
+                for t in [None, Some(None), Some(Some("example.com"))] {
+                    n += 1;
+                    let ctx = format!("version={v:?} uri={uri} host={host:?} tls={t:?}");
+                    // what `handle` says about this very request, and how it leaves it
+                    let mut reference = build(v, uri, host, t);
+                    let verdict = handle(&mut reference);
+                    let before = rec.calls.lock().unwrap().len();
+                    let mut fut = std::pin::pin!(svc.call(build(v, uri, host, t)));
+                    // both arms of the returned future are ready at once with this inner service
+                    let out = futures_util::FutureExt::now_or_never(&mut fut);
+                    let calls = rec.calls.lock().unwrap();
+                    match verdict {
+                        Some(error) => {
+                            if calls.len() != before {
+                                wrong.push(format!("{ctx}: handle rejects it ({error}), but the inner service was called with {:?}", calls.last()));
+                            }
+                            match out {
+                                Some(Err(SNIMiddlewareError::SNI(e))) if e == error => {}
+                                Some(Err(e)) => wrong.push(format!("{ctx}: rejected with `{e}` instead of `{error}`")),
+                                Some(Ok(_)) => wrong.push(format!("{ctx}: handle rejects it ({error}), the middleware answered with a response")),
+                                None => wrong.push(format!("{ctx}: handle rejects it ({error}), the returned future is not ready")),
+                            }
+                        }
+                        None => {
+                            if calls.len() != before + 1 {
+                                wrong.push(format!("{ctx}: handle passes it on, the inner service was called {} times", calls.len() - before));
+                            } else {
+                                let want: Seen = (reference.version(), reference.uri().to_string(),
+                                    reference.headers().get(header::HOST).map(|h| h.to_str().unwrap().to_string()), flag(&reference));
+                                if calls[before] != want {
+                                    wrong.push(format!("{ctx}: the inner service received {:?}, handle leaves the request as {want:?}", calls[before]));
+                                }
+                            }
+                            if !matches!(out, Some(Ok(_))) {
+                                wrong.push(format!("{ctx}: handle passes it on, the middleware did not hand back the inner response"));
+                            }
+                        }
+                    }
+                }
+            }
+        }
+    }
+    assert_eq!(n, 180);
+    // poll_ready: the inner service's, asked once per call
+    let waker = futures_util::task::noop_waker();
+    let mut cx = std::task::Context::from_waker(&waker);
+    let polls0 = rec.ready.lock().unwrap().0;
+    if !matches!(svc.poll_ready(&mut cx), std::task::Poll::Ready(Ok(()))) { wrong.push("poll_ready: inner is ready, the middleware is not".to_string()); }
+    rec.ready.lock().unwrap().1 = true;
+    match svc.poll_ready(&mut cx) {
+        std::task::Poll::Ready(Err(SNIMiddlewareError::Inner(e))) if e.to_string() == "inner not ready" => {}
+        other => wrong.push(format!("poll_ready: the inner service's error did not arrive as Inner(..): {:?}", other.map(|r| r.map_err(|e| e.to_string())))),
+    }
+    if rec.ready.lock().unwrap().0 != polls0 + 2 { wrong.push(format!("poll_ready: inner asked {} times for 2 polls", rec.ready.lock().unwrap().0 - polls0)); }
+    assert!(wrong.is_empty(), "ValidateSNIService does not do `handle`, then forward:\n{}", wrong.join("\n"));
+}
+
+/// ti.recv.some / ti.keeps_kind [C20] (unit tlsinfo): the race between the read-locked check and the write lock of `recv`.
+/// N = 2..4 requests ask a fresh receiver of a TLS connection at the same time on a current-thread runtime.  All but the
+/// last task first use up `k` units of tokio's cooperative budget, so that for some `k` of the sweep they are descheduled
+/// exactly between "not received yet" (read lock released) and `write().await`; the last task then completes the receive,
+/// and the delayed ones find `Received` under the write lock.  The handshake result is published before the race, or
+/// after every task has started.  Whatever the interleaving: EVERY recv - the racing ones and one made later - answers
+/// Some(info); the slot of a TLS connection is never left in a state that makes a later request look like plaintext.
+#[test]
+fn tls_info_race_between_check_and_write_lock() {
+    use crate::info::tls::channel;
+    use std::sync::atomic::{AtomicUsize, Ordering};
+    use std::sync::Arc;
+    /// every successful semaphore acquisition costs one unit of the task's cooperative budget (128 per poll)
+    async fn burn(n: usize) {
+        let sem = tokio::sync::Semaphore::new(n);
+        for _ in 0..n { sem.acquire().await.unwrap().forget(); }
+    }
+    let rt = tokio::runtime::Builder::new_current_thread().enable_all().build().unwrap();
+    let mut wrong = Vec::new();
+    let mut interleaved = Vec::new();
+    for n in 2..=4usize {
+        for k in 0..=140usize {
+            for sent_first in [true, false] {
+                rt.block_on(async {
+                    let (mut tx, rx) = channel();
+                    let info = TlsConnectionInfo { server_name: Some("example.com".into()), ..TlsConnectionInfo::default() };
+                    if sent_first { tx.send(info.clone()); }
+                    let finished = Arc::new(AtomicUsize::new(0));
+                    let handles: Vec<_> = (0..n).map(|i| {
+                        let rx = rx.clone();
+                        let finished = finished.clone();
+                        tokio::spawn(async move {
+                            if i + 1 < n { burn(k).await; }
+                            let got = rx.recv().await;
+                            (got, finished.fetch_add(1, Ordering::SeqCst))
+                        })
+                    }).collect();
+                    if !sent_first {
+                        for _ in 0..3 { tokio::task::yield_now().await; }
+                        tx.send(info.clone());
+                    }
+                    for (i, h) in handles.into_iter().enumerate() {
+                        match tokio::time::timeout(std::time::Duration::from_secs(5), h).await {
+                            Err(_) => wrong.push(format!("n={n} k={k} sent_first={sent_first}: recv of task {i} hangs")),
+                            Ok(Err(e)) => wrong.push(format!("n={n} k={k} sent_first={sent_first}: recv of task {i} panicked: {e}")),
+                            Ok(Ok((got, order))) => {
+                                if got.as_ref().and_then(|g| g.server_name.as_deref()) != Some("example.com") {
+                                    wrong.push(format!("n={n} k={k} sent_first={sent_first}: racing request {i} got {got:?} instead of the connection's TLS information"));
+                                }
+                                if i == 0 && order != 0 && sent_first { interleaved.push((n, k)); }
+                            }
+                        }
+                    }
+                    for later in 0..2 {
+                        match tokio::time::timeout(std::time::Duration::from_secs(5), rx.recv()).await {
+                            Ok(Some(g)) if g.server_name.as_deref() == Some("example.com") => {}
+                            other => wrong.push(format!("n={n} k={k} sent_first={sent_first}: request {later} AFTER the race got {other:?}: the connection no longer hands out its TLS information")),
+                        }
+                    }
+                });
+            }
+        }
+    }
+    println!("sweep values (n, k) at which the first task finished after a later one (k = 127: descheduled exactly between its check and its write lock): {interleaved:?}");
+    wrong.truncate(12);
+    assert!(wrong.is_empty(), "a request on a TLS connection was told that the connection has no TLS information:\n{}", wrong.join("\n"));
 }
